@@ -14,6 +14,7 @@ functions of `Impl/View.lean` and `Impl/Codec.lean`:
 import Rmk.Impl.Codec
 import Rmk.Proofs.TreeLaws
 import Rmk.Proofs.DiffHistory
+import Rmk.Proofs.ReprBasics
 namespace Rmk.PartialViews
 open Rmk Rmk.Impl Rmk.Spec
 
@@ -782,9 +783,9 @@ theorem orel_apply_gen (H : Hash) (t : Ty) (a b : Node) (op : Op) (h : Summ H a 
       · split
         · split
           · exact orel_none _ _
-          · split
+          · by_cases hm : ((len - 1) % (32 / et.basicSize) == 0) = true
             · -- the last element is alone in its chunk: the chunk is replaced by a zero chunk
-              simp only []
+              simp only [if_pos hm]
               cases hs : setAt H false a ((len - 1) / (32 / et.basicSize))
                   (getDepth (chunkLen et lim) + 1)
                   (spliceBasic H et.basicSize (zeroNode H 0) ((len - 1) % (32 / et.basicSize)) 0) with
@@ -793,7 +794,8 @@ theorem orel_apply_gen (H : Hash) (t : Ty) (a b : Node) (op : Op) (h : Summ H a 
                 obtain ⟨next', hn', hsn⟩ := summ_setAt_noexpand h _ _ _ next hs
                 rw [hn']
                 exact summ_popFinish hsn _ _ _
-            · cases hg : getAt a ((len - 1) / (32 / et.basicSize)) (getDepth (chunkLen et lim) + 1) with
+            · simp only [if_neg hm]
+              cases hg : getAt a ((len - 1) / (32 / et.basicSize)) (getDepth (chunkLen et lim) + 1) with
               | none => exact orel_none _ _
               | some ch =>
                 obtain ⟨ch', hg', hsc⟩ := summ_getAt h _ _ ch hg
@@ -823,5 +825,84 @@ theorem orel_apply_gen (H : Hash) (t : Ty) (a b : Node) (op : Op) (h : Summ H a 
       | some vn => exact summ_setAt_noexpand h _ _ _
   case union.change hasNone opts sel v =>
     exact orel_refl_summ H _
+
+/-- `ZeroInj` gives the expansion property used by `append` -/
+theorem expandOk_of_zeroInj (H : Hash) (hZ : ZeroInj H) : ExpandOk H :=
+  fun _ _ h i depth v => summ_setAt_expand H hZ h i depth v
+
+/-- 4 (all operations except `append`, no hypothesis on `H`): a write on a partial tree either
+    fails or gives the partial version of the result of the same write on the complete tree (so the
+    roots after the write are equal).
+
+    What is missing: `Op.append`.  `append` writes with `expand = true`; when the path in the partial
+    tree meets a summary leaf `c` that equals the zero hash of its height, the library (and the
+    model) replaces it by a fresh all-zero subtree.  If `c` is the summary of a subtree holding
+    DATA whose root merely collides with that zero hash, the data is lost and the roots differ
+    afterwards — see `append_counterexample` below, in which the complete tree is a proper
+    representation (`Impl.Repr`).  So the `append` case cannot be proved from `Impl.Repr` alone for
+    a generic `H`; it holds under `ZeroInj H` (`summ_apply`). -/
+theorem summ_apply_partial (H : Hash) (t : Ty) (a b : Node) (op : Op) (h : Summ H a b)
+    (hop : ∀ v, op ≠ .append v) :
+    Impl.apply H t a op = none ∨ ∃ a' b', Impl.apply H t a op = some a' ∧
+      Impl.apply H t b op = some b' ∧ Summ H a' b' :=
+  (orel_iff _ _ _).1 (orel_apply_gen H t a b op h (fun ⟨v, hv⟩ => absurd hv (hop v)))
+
+/-- 4 (all operations, `append` included) under the explicit hypothesis that nothing but two zero
+    hashes of height `d` hashes to the zero hash of height `d + 1` (implied by collision-freeness,
+    `zeroInj_of_injective2`).  No `Repr` hypothesis is needed. -/
+theorem summ_apply (H : Hash) (hZ : ZeroInj H) (t : Ty) (a b : Node) (op : Op) (h : Summ H a b) :
+    Impl.apply H t a op = none ∨ ∃ a' b', Impl.apply H t a op = some a' ∧
+      Impl.apply H t b op = some b' ∧ Summ H a' b' :=
+  (orel_iff _ _ _).1 (orel_apply_gen H t a b op h (fun _ => expandOk_of_zeroInj H hZ))
+
+theorem summ_apply_of_injective2 (H : Hash) (hH : Injective2 H) (t : Ty) (a b : Node) (op : Op)
+    (h : Summ H a b) :
+    Impl.apply H t a op = none ∨ ∃ a' b', Impl.apply H t a op = some a' ∧
+      Impl.apply H t b op = some b' ∧ Summ H a' b' :=
+  summ_apply H (zeroInj_of_injective2 H hH) t a b op h
+
+/-- the roots after a successful write on the partial tree and on the complete tree are equal -/
+theorem summ_apply_root (H : Hash) (hZ : ZeroInj H) (t : Ty) (a b : Node) (op : Op) (h : Summ H a b)
+    (a' : Node) (ha : Impl.apply H t a op = some a') :
+    ∃ b', Impl.apply H t b op = some b' ∧ a'.root H = b'.root H := by
+  rcases summ_apply H hZ t a b op h with hn | ⟨a2, b', h1, h2, hs⟩
+  · rw [hn] at ha; cases ha
+  · rw [h1] at ha; cases ha
+    exact ⟨b', h2, hs.root_eq⟩
+
+theorem summ_apply_partial_root (H : Hash) (t : Ty) (a b : Node) (op : Op) (h : Summ H a b)
+    (hop : ∀ v, op ≠ .append v) (a' : Node) (ha : Impl.apply H t a op = some a') :
+    ∃ b', Impl.apply H t b op = some b' ∧ a'.root H = b'.root H := by
+  rcases summ_apply_partial H t a b op h hop with hn | ⟨a2, b', h1, h2, hs⟩
+  · rw [hn] at ha; cases ha
+  · rw [h1] at ha; cases ha
+    exact ⟨b', h2, hs.root_eq⟩
+
+/-! ### why `append` needs `ZeroInj`: a counterexample for a hash with a zero-hash collision -/
+
+/-- a toy hash in which everything paired with a zero chunk on the right collides with the zero hash -/
+def Hc : Hash := fun x y => if y = zeroChunk then zeroChunk else x ++ y
+
+/-- `List[uint256, 2]` holding `[1]`: complete tree, and the partial tree in which the contents
+    subtree (holding the element `1`) is summarised; the summary equals `zeroHash Hc 1`. -/
+def cT : Ty := .list (.uint 32) 2
+def cB : Node := .pair (.pair (.leaf (chunkOfLE 32 1)) (.leaf zeroChunk)) (lenNode 1)
+def cA : Node := .pair (.leaf zeroChunk) (lenNode 1)
+def cA' : Node := .pair (.pair (.leaf zeroChunk) (.leaf (chunkOfLE 32 2))) (lenNode 2)
+def cB' : Node := .pair (.pair (.leaf (chunkOfLE 32 1)) (.leaf (chunkOfLE 32 2))) (lenNode 2)
+
+theorem append_counterexample :
+    ∃ (H : Hash) (t : Ty) (v : Val) (a b a' b' : Node) (x : Val),
+      t.wf = true ∧ Summ H a b ∧ Impl.Repr H t v b ∧
+      Impl.apply H t a (.append x) = some a' ∧ Impl.apply H t b (.append x) = some b' ∧
+      a'.root H ≠ b'.root H := by
+  refine ⟨Hc, cT, .seq [.num 1], cA, cB, cA', cB', .num 2, by decide, ?_, ?_, ?_, ?_, ?_⟩
+  · have hr : (Node.pair (.leaf (chunkOfLE 32 1)) (.leaf zeroChunk)).root Hc = zeroChunk := by decide
+    refine .pair _ _ _ _ ?_ (.refl _)
+    rw [← hr]; exact .leaf _
+  · exact ReprBasics.construct_repr Hc cT _ cB (by decide) (by decide)
+  · decide
+  · decide
+  · decide
 
 end Rmk.PartialViews
